@@ -464,6 +464,34 @@ fn case_properties(t: &mut Tape, st: &mut Stats) -> Verdict {
             return fail("C17/properties/roundtrip", d("value", json!({"text": text, "key": k, "expected": v, "got": show(&g)})));
         }
     }
+    // the documented --prefix form: every key is read back as <prefix>.<key>, into a map that - one case in two - already
+    // holds one of those keys with another value (a load overwrites)
+    if t.chance(1, 4) {
+        let pfx = *t.pick_ref(&["cfg", "a.b", "p"]);
+        let h3 = val(&exec(&mut ctx, "map", &[])).flatten().unwrap();
+        let mut extra = 0;
+        if !m.is_empty() && t.flip() {
+            let _ = exec(&mut ctx, "map_put", &[h3.clone(), format!("{}.${{k0}}", pfx), "stale".to_string()]);
+            let _ = exec(&mut ctx, "map_put", &[h3.clone(), "other".to_string(), "kept".to_string()]);
+            extra = 1;
+            st.class("properties-prefix-load-over-an-existing-key");
+        }
+        let r = exec(&mut ctx, "map_load_properties", &["--prefix".to_string(), pfx.to_string(), h3.clone(), "${text}".to_string()]);
+        if val(&r) != Some(Some("true".into())) {
+            return fail("C17/properties/map_load_properties", d("map_load_properties --prefix", json!({"text": text, "got": show(&r)})));
+        }
+        let size = exec(&mut ctx, "map_size", &[h3.clone()]);
+        if val(&size) != Some(Some((m.len() + extra).to_string())) {
+            return fail("C17/properties/prefix-roundtrip", d("size", json!({"text": text, "prefix": pfx, "size": show(&size), "expected": m.len() + extra})));
+        }
+        for (i, (k, v)) in m.iter().enumerate() {
+            let g = exec(&mut ctx, "map_get", &[h3.clone(), format!("{}.${{k{}}}", pfx, i)]);
+            if val(&g) != Some(Some(v.clone())) {
+                return fail("C17/properties/prefix-roundtrip", d("value", json!({"text": text, "prefix": pfx, "key": k, "expected": v, "got": show(&g)})));
+            }
+        }
+        let _ = exec(&mut ctx, "release", &[h3]);
+    }
     let _ = exec(&mut ctx, "release", &[h]);
     let _ = exec(&mut ctx, "release", &[h2]);
     if handles(&ctx) != before {
@@ -476,7 +504,7 @@ fn case_properties(t: &mut Tape, st: &mut Stats) -> Verdict {
 pub fn property() -> Property {
     Property {
         id: "C17",
-        rule: "(text) arbitrary Unicode texts incl. empty, NUL, controls, BOM, astral, and - one case in sixty - texts of 4 KiB .. 70 KiB, delivered through a variable: bytes_to_string(string_to_bytes(t)) == t, base64_encode equals an independent reference encoder, bytes_to_string(base64_decode(base64_encode(..))) == t, handles released and the handle table back to its size; (hex) u64 edges and random values: hex_encode equals a reference, hex_decode(hex_encode(n)) == n; (json) documents from a grammar (one in eighty hand-shaped: 65..120 levels deep, or a single array / object of 1000..4000 members) (depth <= 4/6, width <= 5/8, string/integer/edge-integer/dyadic-decimal/bool/null leaves, hazardous keys) in compact or pretty form: json_encode --collection(json_parse --collection d) equals normalise(d) as a JSON value (scalars to strings, nulls dropped), release -r returns the handle table to its size - one case in three parses into an output variable that still holds the collection of an earlier parse kept under another name, which must still encode to its own document afterwards; (properties) maps with keys/values over '=', ':', '#', '!', spaces, LF, CR, tab, form feed, backslash, quotes, Latin-1 range, CJK, astral and random characters: map_load_properties(map_to_properties(m)) into a fresh map (one case in four: a map into which the load of a malformed text was refused just before) has the same keys and values. Non-trivial: text with a multi-byte or control character / JSON of depth >= 2 with a null / map with a non-alphanumeric character; distinct by input",
+        rule: "(text) arbitrary Unicode texts incl. empty, NUL, controls, BOM, astral, and - one case in sixty - texts of 4 KiB .. 70 KiB, delivered through a variable: bytes_to_string(string_to_bytes(t)) == t, base64_encode equals an independent reference encoder, bytes_to_string(base64_decode(base64_encode(..))) == t, handles released and the handle table back to its size; (hex) u64 edges and random values: hex_encode equals a reference, hex_decode(hex_encode(n)) == n; (json) documents from a grammar (one in eighty hand-shaped: 65..120 levels deep, or a single array / object of 1000..4000 members) (depth <= 4/6, width <= 5/8, string/integer/edge-integer/dyadic-decimal/bool/null leaves, hazardous keys) in compact or pretty form: json_encode --collection(json_parse --collection d) equals normalise(d) as a JSON value (scalars to strings, nulls dropped), release -r returns the handle table to its size - one case in three parses into an output variable that still holds the collection of an earlier parse kept under another name, which must still encode to its own document afterwards; (properties) maps with keys/values over '=', ':', '#', '!', spaces, LF, CR, tab, form feed, backslash, quotes, Latin-1 range, CJK, astral and random characters: map_load_properties(map_to_properties(m)) into a fresh map (one case in four: a map into which the load of a malformed text was refused just before) has the same keys and values; one case in four also reads the text back with --prefix p into a map that may already hold p.<key> with another value: every key arrives as p.<key> with its value. Non-trivial: text with a multi-byte or control character / JSON of depth >= 2 with a null / map with a non-alphanumeric character; distinct by input",
         assumptions: &[
             "a root-level null document and string leaves spelled like handles are not generated",
             "JSON numbers are generated in serde_json's canonical spelling",
